@@ -23,7 +23,10 @@ EXTRA = {'C02-viterbi-star-unit-cycle': ['C02', 'C08', 'C09'], 'C09-viterbi-star
          'C03-cli-expect-stale-weights-variable': ['C03', 'C11'], 'C11-fixedpoint-stale-final-iterate': ['C11', 'C03'], 'C11-jlog-softmax-allzero-slice': ['C11', 'C03'],
          'C01-default-to-relabels-shared-axis': ['C01', 'C07'], 'C01-einsum-operand-index-map': ['C01', 'C07'], 'C08-same-paxes-fast-path': ['C08', 'C06'],
          'C12-new-rule-snapshots-rhs': ['C12', 'C16'], 'C12-viterbi-shared-rhs-pointer-list': ['C12', 'C04'], 'C18-copy-adopts-contiguous-source': ['C18', 'C06'],
-         'C10-method-name-identity-dispatch': ['C10', 'C05'], 'C13-multi-tol0-absent-numeric-zero': ['C13', 'C02']}
+         'C10-method-name-identity-dispatch': ['C10', 'C05'], 'C13-multi-tol0-absent-numeric-zero': ['C13', 'C02'],
+         'C01-real-einsum-nan-fixup-guard': ['C01', 'C07'], 'C01-log-from-int-single-precision': ['C01', 'C08'], 'C09-default-to-dense-test-counts-axes': ['C09', 'C07'],
+         'C12-fgg-copy-shares-rule-lists': ['C12', 'C16'], 'C12-scc-cross-edge-lowlink': ['C12', 'C19'], 'C03-jprecompute-skips-outside-nonterminals': ['C03', 'C11'],
+         'C11-solve-skip-zero-row-not-semiring-zero': ['C11', 'C09'], 'C11-jacobian-memo-ignores-attachment-order': ['C11', 'C03']}
 res_path = os.path.join(V, 'seeded', 'RESULTS.json')
 results = json.load(open(res_path)) if os.path.exists(res_path) else {}
 names = sorted(os.path.basename(d) for d in glob.glob(os.path.join(V, 'seeded', '*')) if os.path.isdir(d))
